@@ -152,6 +152,73 @@ fn run_proofs_json(cx: &mut CaseCx, _case: &Value) {
   cx.outcome("proofs and json");
 }
 
+
+/// JSON forms that do not decode must yield an error, never a partially initialised value (and never a panic)
+fn run_json_malformed(cx: &mut CaseCx, _case: &Value) {
+  use base64::{engine::Engine as _, prelude::{BASE64_STANDARD, BASE64_STANDARD_NO_PAD, BASE64_URL_SAFE}};
+  cx.entropy(650);
+  let server = pp::Server::new(vec![1]).expect("server");
+  let (blinded, _) = pp::Client::blind(b"x");
+  let ev = server.eval(&blinded, 1, true).expect("eval");
+  let good: Value = serde_json::to_value(&ev).expect("json");
+  let out = *ev.output.as_bytes();
+  let mut cands: Vec<(String, String, bool)> = vec![]; // (description, output string, is exactly the 32 valid bytes in standard padded base64)
+  for n in 0..=40usize {
+    let bytes: Vec<u8> = if n <= 32 { out[..n].to_vec() } else { [&out[..], &vec![0x41u8; n - 32][..]].concat() };
+    cands.push((format!("{} bytes, standard padded", n), BASE64_STANDARD.encode(&bytes), n == 32));
+    cands.push((format!("{} bytes, unpadded", n), BASE64_STANDARD_NO_PAD.encode(&bytes), false));
+    cands.push((format!("{} bytes, url-safe", n), BASE64_URL_SAFE.encode(&bytes), false));
+  }
+  let std32 = BASE64_STANDARD.encode(out);
+  for k in 0..=std32.len() {
+    cands.push((format!("first {} characters of the valid string", k), std32[..k].to_string(), k == std32.len()));
+  }
+  cands.push(("not base64".into(), "!!!!".into(), false));
+  cands.push(("44 characters without padding (33 bytes)".into(), BASE64_STANDARD_NO_PAD.encode([7u8; 33]), false));
+  cands.push(("valid with trailing newline".into(), format!("{}\n", std32), false));
+  for (desc, outstr, is_valid_form) in cands {
+    // a url-safe / unpadded rendering can coincide with the standard one
+    let same_as_std = outstr == std32;
+    let mut v = good.clone();
+    v["output"] = Value::String(outstr.clone());
+    let js = v.to_string();
+    cx.eval();
+    cx.nontrivial(fnv_str(&js));
+    match guard(|| serde_json::from_str::<pp::Evaluation>(&js).map(|e| *e.output.as_bytes())) {
+      Err(p) => cx.viol("C15/json-load-panicked", format!("restoring an Evaluation from JSON panicked ({}): {}", desc, p.chars().take(120).collect::<String>()), json!({"output_field": outstr, "how": desc})),
+      Ok(Ok(bytes)) => {
+        if is_valid_form || same_as_std {
+          if bytes != out {
+            cx.viol("C15/evaluation-json-differs", "valid JSON restores to a different point", json!({"how": desc}));
+          }
+          cx.count("json_accepted", 1);
+        } else {
+          cx.viol("C15/json-partial-value-accepted", format!("an Evaluation whose output field does not decode to exactly 32 bytes ({}) was restored instead of refused: output = {}", desc, hex(&bytes)), json!({"output_field": outstr, "how": desc, "restored_output": hex(&bytes)}));
+        }
+      }
+      Ok(Err(_)) => {
+        if is_valid_form || same_as_std {
+          cx.viol("C15/evaluation-json-load-failed", format!("the valid form was refused ({})", desc), json!({"how": desc}));
+        }
+        cx.count("json_refused", 1);
+      }
+    }
+    // the bare Point form (array of 32 numbers) with wrong lengths
+  }
+  for n in [0usize, 1, 31, 33, 64] {
+    let arr: Vec<u8> = (0..n).map(|i| out[i % 32]).collect();
+    let js = serde_json::to_string(&arr).unwrap();
+    cx.eval();
+    match guard(|| serde_json::from_str::<pp::Point>(&js).map(|_| ())) {
+      Err(p) => cx.viol("C15/json-load-panicked", format!("restoring a Point from JSON panicked: {}", p), json!({"json": js})),
+      Ok(Ok(())) => cx.viol("C15/json-partial-value-accepted", format!("a Point of {} bytes was restored from JSON", n), json!({"len": n})),
+      Ok(Err(_)) => cx.count("json_refused", 1),
+    }
+  }
+  cx.outcome("malformed JSON");
+  cx.sample(json!({"valid_json": good.to_string().chars().take(100).collect::<String>()}));
+}
+
 fn run_limits(cx: &mut CaseCx, _case: &Value) {
   cx.entropy(700);
   let server = pp::Server::new((0..=255u8).collect()).expect("server");
@@ -243,6 +310,13 @@ pub fn spec() -> PropSpec {
         gen: |_| vec![json!({})],
         run: run_proofs_json,
         min_counts: &[("proof_roundtrips", 30), ("evaluation_json_roundtrips", 60), ("point_json_roundtrips", 60)],
+      },
+      Check {
+        name: "json-malformed",
+        rule: "Evaluation JSON whose output field is the base64 (standard padded / unpadded / url-safe) of 0..40 bytes, every character-prefix of the valid string, non-base64, 44 unpadded characters; bare Point arrays of 0,1,31,33,64 numbers: anything that is not exactly the valid 32-byte form must be an error (no panic, no zero-padded or truncated value)",
+        gen: |_| vec![json!({})],
+        run: run_json_malformed,
+        min_counts: &[("json_refused", 100), ("json_accepted", 1)],
       },
       Check {
         name: "limits-and-truncations",
